@@ -84,6 +84,32 @@ theorem usingCParams_static_never_fails (c : CPar) (stream : Bool) (p : RP) (hle
 /-- the budget of chain-table-heavy lazy parameters covers the hash-chain finder a 16 KB source falls back to, and the row finder alike -/
 example : leB { rpOfCParams ⟨15, 15, 8, 4, 4, 0, 5⟩ false false with windowLog := 14, chainLog := 14, pledged := 16000 } (rpOfCParams ⟨15, 15, 8, 4, 4, 0, 5⟩ false false) = true := by decide
 
+/-- **usingCCtxParams_covers**: ZSTD_estimateCCtxSize_usingCCtxParams / ZSTD_estimateCStreamSize_usingCCtxParams on a parameter set with
+cParams c and row-finder mode `mode` budget enough for every job whose resolved parameters are dominated by c and whose match-finder
+flavour is one the budget is made for (`flavourCovered`): the flavour the caller selected; with the mode left automatic, EITHER
+flavour for the one-shot estimate (the compressor resolves the automatic mode after ZSTD_adjustCParams shrank the window to the
+source, which can cross the row finder's threshold), the flavour of the unadjusted parameters for the streaming estimate.
+Both hypotheses are evaluated on the applied parameters of every static-context run sized by these estimates. -/
+theorem usingCCtxParams_covers (c : CPar) (mode : RowMode) (stream : Bool) (p : RP) (hf : flavourCovered c mode stream p.useRow = true)
+    (hle : Le p (rpOfCCtxParams c mode p.useRow stream)) : estimate p ≤ estimateUsingCCtxParams c mode stream :=
+  Nat.le_trans (estimate_mono p _ hle) (estimate_le_usingCCtxParams c mode stream p.useRow hf)
+
+/-- one-shot, mode left automatic, strategy with a row finder: whatever flavour the compressor ends up with is covered -/
+theorem usingCCtxParams_auto_covers (c : CPar) (p : RP) (hs : rowSupported c.strategy = true)
+    (hle : Le p (rpOfCCtxParams c RowMode.auto p.useRow false)) : estimate p ≤ estimateUsingCCtxParams c RowMode.auto false :=
+  usingCCtxParams_covers c RowMode.auto false p (by simp [flavourCovered, hs]) hle
+
+/-- with `static_never_fails`: a static context of that size never fails a reservation for such a job -/
+theorem usingCCtxParams_static_never_fails (c : CPar) (mode : RowMode) (stream : Bool) (p : RP) (hf : flavourCovered c mode stream p.useRow = true)
+    (hle : Le p (rpOfCCtxParams c mode p.useRow stream)) (lo size : Nat) (hsz : estimateUsingCCtxParams c mode stream ≤ size) :
+    Clean (run (init lo size) (reserveSeq p)) :=
+  static_never_fails p lo size (by intro h; rw [hle.l1] at h; cases h) (Nat.le_trans (usingCCtxParams_covers c mode stream p hf hle) hsz)
+
+/-- windowLog 15, lazy2, chain table much larger than the hash table, mode automatic: the one-shot budget is the hash-chain one (the
+flavour a 16 KB source falls back to), not the row-finder one the unadjusted parameters select -/
+example : estimateUsingCCtxParams ⟨15, 15, 8, 4, 4, 0, 5⟩ RowMode.auto false = estimate (rpOfCCtxParams ⟨15, 15, 8, 4, 4, 0, 5⟩ RowMode.auto false false) ∧
+          estimate (rpOfCCtxParams ⟨15, 15, 8, 4, 4, 0, 5⟩ RowMode.auto true false) < estimateUsingCCtxParams ⟨15, 15, 8, 4, 4, 0, 5⟩ RowMode.auto false := by decide
+
 /-! ### streaming decoder -/
 
 /-- **dstream_buffers_le**: for every frame whose (clamped) window is within the limit W (W ≥ 1 KiB), whatever its content size
